@@ -1,0 +1,56 @@
+//! Verification hooks (only with `--cfg lexical_verif`): record which internal
+//! tier produced the result of the last call, so conformance traces can name
+//! the stage a call went through. Never compiled in normal builds.
+
+#![cfg(lexical_verif)]
+#![doc(hidden)]
+
+use core::sync::atomic::{AtomicU8, Ordering};
+
+/// No tier recorded.
+pub const NONE: u8 = 0;
+/// Float parser: exact fast path.
+pub const PARSE_FAST: u8 = 1;
+/// Float parser: moderate path (Eisel-Lemire, Bellerophon or binary) decided.
+pub const PARSE_MODERATE: u8 = 2;
+/// Float parser: slow path (big-integer arithmetic).
+pub const PARSE_SLOW: u8 = 3;
+/// Float parser: special-value fallback attempted.
+pub const PARSE_SPECIAL: u8 = 4;
+/// Float writer: Dragonbox, normal interval.
+pub const WRITE_DRAGONBOX_NORMAL: u8 = 1;
+/// Float writer: Dragonbox, shorter interval.
+pub const WRITE_DRAGONBOX_SHORTER: u8 = 2;
+/// Float writer: Grisu (compact).
+pub const WRITE_GRISU: u8 = 3;
+/// Float writer: power-of-two radix.
+pub const WRITE_BINARY: u8 = 4;
+/// Float writer: generic radix.
+pub const WRITE_RADIX: u8 = 5;
+
+static PARSE_TIER: AtomicU8 = AtomicU8::new(NONE);
+static WRITE_TIER: AtomicU8 = AtomicU8::new(NONE);
+
+/// Record the tier of the float parser.
+#[inline(always)]
+pub fn set_parse_tier(tier: u8) {
+    PARSE_TIER.store(tier, Ordering::Relaxed);
+}
+
+/// Read and reset the tier of the float parser.
+#[inline(always)]
+pub fn take_parse_tier() -> u8 {
+    PARSE_TIER.swap(NONE, Ordering::Relaxed)
+}
+
+/// Record the tier of the float writer.
+#[inline(always)]
+pub fn set_write_tier(tier: u8) {
+    WRITE_TIER.store(tier, Ordering::Relaxed);
+}
+
+/// Read and reset the tier of the float writer.
+#[inline(always)]
+pub fn take_write_tier() -> u8 {
+    WRITE_TIER.swap(NONE, Ordering::Relaxed)
+}
